@@ -191,7 +191,7 @@ _EXT: t.Dict[str, t.Any] = {}
 
 def ext_cases(shard: int, nshards: int) -> t.Iterator[t.Any]:
     i = 0
-    for kind in ('union-constructor', 'raising-default-factory'):
+    for kind in ('union-constructor', 'raising-default-factory', 'sized-sequence-type', 'validating-sequence-type'):
         for vi in range(6):
             for where in ('bare', 'List', 'Optional'):
                 if i % nshards == shard:
@@ -227,6 +227,23 @@ def check_extension(case: t.Any, ctx: Ctx) -> None:
                         return cls(val)
                     return UnionConverter((D.date, str), constructor=build, **({'handlers': handlers} if handlers is not None else {}))
             _EXT[kind] = Deadline
+        elif kind == 'sized-sequence-type':
+            class Vec3(tuple):  # type: ignore[type-arg]
+                """A sequence type of the user's whose constructor wants something with a length: the one-shot iterator the
+                converter hands it has none, so it refuses everything; and both passes say so."""
+                def __new__(cls, items: t.Any = ()) -> t.Any:
+                    if len(items) != 3:
+                        raise ValueError('three components')
+                    return super().__new__(cls, items)
+            _EXT[kind] = Vec3
+        elif kind == 'validating-sequence-type':
+            class Ascending(list):  # type: ignore[type-arg]
+                """A list type of the user's which refuses contents out of order."""
+                def __init__(self, items: t.Any = ()) -> None:
+                    super().__init__(items)
+                    if any(a > b for (a, b) in zip(self, self[1:])):
+                        raise ValueError('not ascending')
+            _EXT[kind] = Ascending
         else:
             def factory() -> t.Any:
                 if _EXT.get('factory-fails'):
@@ -237,8 +254,10 @@ def check_extension(case: t.Any, ctx: Ctx) -> None:
                               in_format=('struct', 'tuple'))
     X = _EXT[kind]
     _EXT['factory-fails'] = True        # (the class is defined by now: pane evaluates the factory once for the signature)
-    v = (['2024-05-06', '1999-12-31', 'whenever', 5, None, ''] if kind == 'union-constructor' else
-         [{'name': 'b'}, {'name': 'b', 'queue': 'q'}, ['b'], ['b', 'q'], {'name': 5}, {}])[vi]
+    v = {'union-constructor': ['2024-05-06', '1999-12-31', 'whenever', 5, None, ''],
+         'raising-default-factory': [{'name': 'b'}, {'name': 'b', 'queue': 'q'}, ['b'], ['b', 'q'], {'name': 5}, {}],
+         'sized-sequence-type': [[1.0, 2.0, 3.0], [1, 2], [], 'abc', (1, 2, 3), [1, 2, 3, 4]],
+         'validating-sequence-type': [[1, 2, 3], [3, 1], [], [2, 2], 5, (9, 1, 1)]}[kind][vi]
     (T, data) = {'bare': (X, v), 'List': (t.List[X], [v]), 'Optional': (t.Optional[X], v)}[where]
     ctx.label(kind, where)
     ctx.nontrivial(True)
